@@ -86,14 +86,14 @@ def s1(ctx):
         if not ok:
             out.fail(key, 'thread-spawning entry %s is reachable without the !is_sequential() guard: %s' % (strip_generics(entry), why),
                      body.where(body.blocks[bb]['term'].get('line')), {'trail': trail})
-    out.floor('runner_call_sites', len(S.runner_call_sites), 19 if not ctx.fixture else 0)
+    out.floor('runner_call_sites', len(S.runner_call_sites), 6 if not ctx.fixture else 0)
     out.floor('runner_entries', len(S.runner_entries), 3 if not ctx.fixture else 0)
     out.count('guarded_locally', n_local)
     return out
 
 
 # ======================================================================================= S6
-@rule('S6', 'SEQ-CONST: is_sequential(p) == (p.num_threads == Max(1)) with the derived PartialEq')
+@rule('S6', 'SEQ-CONST: is_sequential(p) is true exactly for num_threads == Max(1)')
 def s6(ctx):
     out = RuleOut('S6')
     F = ctx.facts
@@ -101,31 +101,56 @@ def s6(ctx):
     if b is None:
         out.floor('is_sequential', 0, 1)
         return out
-    r = ctx.run(IS_SEQ)
-    t = r.ret
-    ok = False
-    why = t_str(t)
-    if t[0] == 'call' and sg(t[1]).endswith('PartialEq>::eq') or (t[0] == 'call' and 'PartialEq' in t[1]):
-        a, c = t[2][0], t[2][1]
-        sides = {t_str(a), t_str(c)}
-        field = ('field', ('param', 'self'), None, 0)
-        one = [x for x in (a, c) if x != field]
-        if field in (a, c) and len(one) == 1:
-            o = one[0]
-            # Max(NonZero(1)): a `Max` variant whose payload evaluates to the constant 1
-            if o[0] == 'variant' and o[4] == 'Max' and o[1].endswith('NumThreads'):
-                consts = [x for x in subterms(o[3][0]) if x[0] == 'const']
-                if consts == [('const', 1)]:
-                    ok = True
-        # the eq impl must be the derived one
-        eqb = F.bodies.get(t[1])
-        if eqb is not None and not eqb.d.get('derived'):
-            ok = False
-            why += ' (PartialEq for NumThreads is hand-written)'
-        # field 0 of Params must be num_threads
-    out.inst('S6/is_sequential', ok, why, sample={'is_sequential': why})
-    if not ok:
-        out.fail('S6/params::Params::is_sequential', 'is_sequential is not `self.num_threads == NumThreads::Max(1)`: %s' % why, b.where())
+    NT = 'num_threads::NumThreads'
+    PAR = 'params::Params'
+    K = ('param', 'K')
+    rows = []
+    probs = []
+
+    def struct_eq(x, y):
+        """truth of a derived PartialEq between two variant terms: 0/1, or the payload comparison term"""
+        if x[0] == 'variant' and y[0] == 'variant' and x[1] == y[1]:
+            if x[2] != y[2]:
+                return ('const', 0)
+            if not x[3]:
+                return ('const', 1)
+            if len(x[3]) == 1:
+                return ('bin', 'Eq', x[3][0], y[3][0])
+        return None
+
+    def norm(t):
+        # a derived eq call between known variants
+        if t[0] == 'call' and 'PartialEq' in t[1] and len(t[2]) == 2:
+            eqb = F.bodies.get(t[1])
+            if eqb is not None and not eqb.d.get('derived'):
+                return t
+            r = struct_eq(t[2][0], t[2][1])
+            return r if r is not None else t
+        return t
+
+    def one_of(t):
+        """does the term denote the constant 1 (possibly NonZero::new_unchecked(1) etc.)"""
+        consts = [x for x in subterms(t) if x[0] == 'const']
+        others = [x for x in subterms(t) if x[0] in ('param', 'field', 'phi', 'top')]
+        return consts == [('const', 1)] and not others
+
+    auto = ('variant', NT, F.variant_index(NT, 'Auto'), (), 'Auto')
+    mx = ('variant', NT, F.variant_index(NT, 'Max'), (K,), 'Max')
+    for label, nt in (('Auto', auto), ('Max(K)', mx)):
+        arg = ('variant', PAR, 0, (nt, ('param', 'CS')), 'Params')
+        r = ctx.opa.run(IS_SEQ, [arg])
+        got = norm(r.ret)
+        rows.append('%s => %s' % (label, t_str(got)[:80]))
+        if label == 'Auto':
+            if got != ('const', 0):
+                probs.append('is_sequential(num_threads = Auto) = %s, expected false' % t_str(got)[:80])
+        else:
+            ok = got[0] == 'bin' and got[1] == 'Eq' and ((got[2] == K and one_of(got[3])) or (got[3] == K and one_of(got[2])))
+            if not ok:
+                probs.append('is_sequential(num_threads = Max(K)) = %s, expected K == 1' % t_str(got)[:80])
+    out.inst('S6/is_sequential', not probs, '; '.join(rows), sample={'is_sequential': rows})
+    for p_ in probs:
+        out.fail('S6/params::Params::is_sequential', p_, b.where())
     out.floor('is_sequential', 1, 1)
     return out
 
@@ -327,7 +352,7 @@ def c08_who(ctx):
                 continue
             out.inst(key, False, p)
             out.fail(key, 'thread API %s called in %s, outside the scoped runner entries' % (p, key_of(b)), b.where(t.get('line')))
-    out.floor('thread_api_sites', n, 11 if not ctx.fixture else 0)
+    out.floor('thread_api_sites', n, 3 if not ctx.fixture else 0)
     return out
 
 
@@ -388,7 +413,7 @@ def c06_recv(ctx):
         if not drops and not (dep or unit):
             out.fail(key + '/independent', '%s: the returned value does not depend on the target `%s` (%s)' % (key_of(b), nm, role), b.where(),
                      {'ret': t_str(r.ret)[:400]})
-    out.floor('targets', len(tg), 28 if not ctx.fixture else 0)
+    out.floor('targets', len(tg), 20 if not ctx.fixture else 0)
     return out
 
 
@@ -428,7 +453,7 @@ def c06_mut(ctx):
                 out.fail(key, '%s calls `%s` on the collection target: existing contents may be disturbed' % (key_of(b), mth), b.where(c['line']))
             else:
                 out.inst(key, True, mth, sample={'fn': key_of(b), 'call': mth})
-    out.floor('target_calls', n, 10 if not ctx.fixture else 0)
+    out.floor('target_calls', n, 5 if not ctx.fixture else 0)
     return out
 
 
@@ -536,7 +561,7 @@ def c14_propagate(ctx):
         out.fail('C14-PROPAGATE/panic-strategy', 'the crate is compiled with panic strategy %s' % F.opts.get('panic'), 'Cargo.toml')
     out.inst('C14-PROPAGATE/call-sites', True, '%d call sites scanned, %d Drop impls' % (n, len(drops)), sample={'call_sites': n, 'drop_impls': len(drops)})
     out.inst('C14-PROPAGATE/cargo', True, 'panic strategy %s' % F.opts.get('panic'))
-    out.floor('call_sites_scanned', n, 500 if not ctx.fixture else 0)
+    out.floor('call_sites_scanned', n, 300 if not ctx.fixture else 0)
     return out
 
 
@@ -604,9 +629,9 @@ def c13_inventory(ctx):
                 if method(t) not in KNOWN_UNSAFE:
                     out.fail('C13-INVENTORY/%s/unsafe-%s' % (key_of(root), method(t)),
                              'unsafe callee %s in %s is outside the reviewed inventory' % (p, key_of(b)), b.where(t.get('line')), kind='undecided')
-    out.floor('ownership_primitive_sites', n, 6 if not ctx.fixture else 0)
+    out.floor('ownership_primitive_sites', n, 3 if not ctx.fixture else 0)
     out.count('other_unsafe_callees', n_unsafe)
-    out.floor('merge_functions', len(merges), 2 if not ctx.fixture else 0)
+    out.floor('merge_functions', len(merges), 1 if not ctx.fixture else 0)
     return out
 
 
@@ -797,7 +822,7 @@ def c09_seqshape(ctx):
         out.inst(key, not probs, 'closures in order %s' % order, sample={'kernel': key_of(b), 'closure_order': order, 'ret': t_str(r.ret)[:200]})
         for i, (msg, line, bd) in enumerate(probs):
             out.fail(key + '/' + msg.split('`')[1] if '`' in msg else key + '/shape%d' % i, '%s: %s' % (key_of(b), msg), bd.where(line))
-    out.floor('seq_kernels', len(S.seq_kernels), 16 if not ctx.fixture else 0)
+    out.floor('seq_kernels', len(S.seq_kernels), 6 if not ctx.fixture else 0)
     return out
 
 
@@ -834,5 +859,5 @@ def c05_affine(ctx):
             out.inst(key, ok, why, sample={'fn': key_of(b), 'param': p, 'bound': '%s%s -> %s' % (fb['trait'].split('::')[-1], fb['inputs'], fb['output'])})
             if not ok:
                 out.fail(key, '%s: closure parameter %s %s - the move checker no longer forbids a second evaluation on the same element' % (key_of(b), p, why), b.where())
-    out.floor('closure_bounds', n, 80 if not ctx.fixture else 0)
+    out.floor('closure_bounds', n, 30 if not ctx.fixture else 0)
     return out
